@@ -151,3 +151,321 @@ Section Median.
     rewrite E. reflexivity.
   Qed.
 End Median.
+
+(* ------------------------------------------------------------------ matching cost (sad / ssd) *)
+
+Definition cfg_wf (G : cfg) : Prop := 0 < g_w G /\ Z.odd (g_w G) = true /\ 0 < g_s G /\ g_dmin G <= g_dmax G.
+
+Lemma curve_ext : forall vol vol' n r c r' c',
+  (forall k, 0 <= k < n -> vol r c k = vol' r' c' k) -> curve vol n r c = curve vol' n r' c'.
+Proof.
+  intros vol vol' n r c r' c' H. unfold curve. apply map_ext_in. intros k Hk.
+  apply MatchingCostP.zrange_In in Hk. apply H. lia.
+Qed.
+
+Lemma rad_mc_wf : forall G, cfg_wf G -> rad_wf (rad_mc G).
+Proof.
+  intros G (Hw & Ho & _). destruct (MatchingCostP.odd_offset _ Hw Ho) as [_ H0].
+  unfold rad_wf, rad_mc, dspan, dpos, dneg. cbn [rho lam mu]. lia.
+Qed.
+
+(* floor and ceil of a sampled disparity stay inside the interval *)
+Lemma sample_bounds : forall s dmin dmax k, 0 < s -> 0 <= k < MatchingCost.nb_disp s dmin dmax ->
+  let D := MatchingCost.disp_scaled s dmin k in
+  dmin <= Cost.dfloor s D /\ Cost.dceil s D <= dmax.
+Proof.
+  intros s dmin dmax k Hs Hk. unfold MatchingCost.nb_disp in Hk. cbv zeta.
+  unfold MatchingCost.disp_scaled, Cost.dfloor, Cost.dceil. split.
+  - apply Z.div_le_lower_bound; lia.
+  - assert ((- (dmin * s + k)) / s >= - dmax); [|lia].
+    apply Z.le_ge. apply Z.div_le_lower_bound; nia.
+Qed.
+
+Section MC.
+  Variables (ssd : bool) (E : Criteria.env) (G : cfg).
+  Hypothesis Hwf : cfg_wf G.
+  Variables (F F' : frame pix) (r c r' c' : Z).
+  Hypothesis HF : cone_in F (rad_mc G) r c.
+  Hypothesis HF' : cone_in F' (rad_mc G) r' c'.
+  Hypothesis Hag : agree_on F F' (rad_mc G) r c r' c'.
+  Let h := MatchingCost.offset (g_w G).
+
+  Lemma h0 : 0 <= h.
+  Proof. destruct Hwf as (Hw & Ho & _). destruct (MatchingCostP.odd_offset _ Hw Ho). assumption. Qed.
+
+  Lemma px_at : forall a b, - h <= a <= h -> - (h + dspan G) <= b <= h + dspan G ->
+    f_at F (r + a) (c + b) = f_at F' (r' + a) (c' + b) /\
+    Cost.in_image (f_nr F) (f_nc F) (r + a) (c + b) = true /\
+    Cost.in_image (f_nr F') (f_nc F') (r' + a) (c' + b) = true.
+  Proof.
+    intros a b Ha Hb. unfold cone_in, rad_mc in HF, HF'. cbn [rho lam mu] in HF, HF'. fold h in HF, HF'.
+    split; [|split].
+    - apply Hag. unfold in_cone, rad_mc. cbn [rho lam mu]. fold h. lia.
+    - unfold Cost.in_image. apply band_true4; lia.
+    - unfold Cost.in_image. apply band_true4; lia.
+  Qed.
+
+  Lemma omask_agree : forall has (g : pix -> Z) a b, - h <= a <= h -> - (h + dspan G) <= b <= h + dspan G ->
+    LocalCostP.mask_agree (omask has (fld g F)) (omask has (fld g F')) (r + a) (c + b) (r' + a) (c' + b).
+  Proof.
+    intros has g a b Ha Hb. destruct has; cbn [omask LocalCostP.mask_agree]; [|exact I].
+    unfold fld. destruct (px_at a b Ha Hb) as (-> & _). reflexivity.
+  Qed.
+
+  Lemma left_curve_local :
+    curve ((if ssd then MatchingCost.ssd_volume else MatchingCost.sad_volume) (inp_left G F) (g_dmin G) (g_dmax G)) (n_disp G) r c
+    = curve ((if ssd then MatchingCost.ssd_volume else MatchingCost.sad_volume) (inp_left G F') (g_dmin G) (g_dmax G)) (n_disp G) r' c'.
+  Proof.
+    pose proof h0 as Hh. destruct Hwf as (Hw & Ho & Hs & Hdd).
+    assert (Hin : in_frame F r c /\ in_frame F' r' c').
+    { split; eapply cone_in_frame; try eassumption; apply rad_mc_wf; assumption. }
+    destruct Hin as [[Hr Hc] [Hr' Hc']].
+    apply curve_ext. intros k Hk. unfold n_disp in Hk.
+    pose proof (sample_bounds (g_s G) (g_dmin G) (g_dmax G) k Hs Hk) as SB. cbv zeta in SB.
+    assert (Hsp : - dspan G <= g_dmin G /\ g_dmax G <= dspan G /\ 0 <= dspan G) by (unfold dspan, dpos, dneg; lia).
+    assert (HL : forall a b, - h <= a <= h -> - h <= b <= h ->
+              LocalCostP.inp_alike_left (inp_left G F) (inp_left G F') r c r' c' a b).
+    { intros a b Ha Hb. unfold LocalCostP.inp_alike_left, LocalCostP.px_alike, inp_left. cbn.
+      assert (Hb' : - (h + dspan G) <= b <= h + dspan G) by lia.
+      destruct (px_at a b Ha Hb') as (E1 & E2 & E3). rewrite E2, E3. unfold fld. rewrite E1.
+      split; [reflexivity|]. split; [reflexivity|]. apply (omask_agree (g_hasL G) p_mL a b Ha Hb'). }
+    assert (HR : forall a b, - h <= a <= h ->
+              - h + Cost.dfloor (g_s G) (MatchingCost.disp_scaled (g_s G) (g_dmin G) k) <= b
+              <= h + Cost.dceil (g_s G) (MatchingCost.disp_scaled (g_s G) (g_dmin G) k) ->
+              LocalCostP.inp_alike_right (inp_left G F) (inp_left G F') r c r' c' a b).
+    { intros a b Ha Hb. unfold LocalCostP.inp_alike_right, LocalCostP.px_alike, inp_left. cbn.
+      assert (Hb' : - (h + dspan G) <= b <= h + dspan G) by lia.
+      destruct (px_at a b Ha Hb') as (E1 & E2 & E3). rewrite E2, E3. unfold fld. rewrite E1.
+      split; [reflexivity|]. split; [reflexivity|]. apply (omask_agree (g_hasR G) p_mR a b Ha Hb'). }
+    destruct ssd.
+    - apply (LocalCostP.ssd_model_local (inp_left G F) (inp_left G F') (g_dmin G) (g_dmax G) r c r' c' k);
+        try assumption; cbn; try (repeat split; assumption); try lia; repeat split; reflexivity.
+    - apply (LocalCostP.sad_model_local (inp_left G F) (inp_left G F') (g_dmin G) (g_dmax G) r c r' c' k);
+        try assumption; cbn; try (repeat split; assumption); try lia; repeat split; reflexivity.
+  Qed.
+End MC.
+
+(* ------------------------------------------------------------------ the validity mask of the matching-cost
+   step (criteria.py) at a pixel whose cone is inside the image: bits 1 / 2 of validity_mask and the
+   border flag are position dependent only within offset + disparity interval of the image sides *)
+
+Lemma zseq_In : forall n lo x, In x (Criteria.zseq lo n) <-> lo <= x < lo + Z.of_nat n.
+Proof.
+  induction n; intros lo x; cbn [Criteria.zseq In].
+  - lia.
+  - rewrite IHn. lia.
+Qed.
+
+Lemma existsb_zseq_shift : forall n lo lo' (f g : Z -> bool),
+  (forall i, 0 <= i < Z.of_nat n -> f (lo + i) = g (lo' + i)) ->
+  existsb f (Criteria.zseq lo n) = existsb g (Criteria.zseq lo' n).
+Proof.
+  induction n; intros lo lo' f g H; cbn [Criteria.zseq existsb]; [reflexivity|].
+  pose proof (H 0 ltac:(lia)) as H0. rewrite !Z.add_0_r in H0. rewrite H0. f_equal.
+  apply IHn. intros i Hi. replace (lo + 1 + i) with (lo + (i + 1)) by lia.
+  replace (lo' + 1 + i) with (lo' + (i + 1)) by lia. apply H. lia.
+Qed.
+
+Lemma fold_left_ext_in : forall {S X} (f g : S -> X -> S) l s,
+  (forall x st, In x l -> f st x = g st x) -> fold_left f l s = fold_left g l s.
+Proof.
+  induction l as [|a l IH]; intros s H; cbn [fold_left]; [reflexivity|].
+  rewrite (H a s) by now left. apply IH. intros; apply H; now right.
+Qed.
+
+Section Crit.
+  Import Criteria.
+  Variables (E : env) (L L' : layout) (r c r' c' : Z) (an an' : Z -> Z -> bool).
+  Hypothesis Hsame : off L' = off L /\ dmin L' = dmin L /\ dmax L' = dmax L /\ lhas L' = lhas L /\ rhas L' = rhas L
+                     /\ l_nd L' = l_nd L /\ l_vl L' = l_vl L /\ r_nd L' = r_nd L /\ r_vl L' = r_vl L.
+  Hypothesis Hoff : 0 <= off L.
+  Let lo := Z.min 0 (dmin L).
+  Let hi := Z.max 0 (dmax L).
+  Hypothesis Hint : dmin L <= dmax L.
+  Hypothesis Hin : off L <= r /\ r + off L < nr L /\ off L <= c + lo /\ c + hi + off L < nc L.
+  Hypothesis Hin' : off L <= r' /\ r' + off L < nr L' /\ off L <= c' + lo /\ c' + hi + off L < nc L'.
+  Hypothesis Hlm : forall a b, - off L <= a <= off L -> - off L <= b <= off L ->
+    lm L (r + a) (c + b) = lm L' (r' + a) (c' + b).
+  Hypothesis Hrm : forall a b, - off L <= a <= off L -> - off L + dmin L <= b <= off L + dmax L ->
+    rm L (r + a) (c + b) = rm L' (r' + a) (c' + b).
+  Hypothesis Han : an r c = an' r' c'.
+
+  Lemma vm_base_interior : forall (K : layout) k, off K = off L -> dmin K = dmin L -> dmax K = dmax L ->
+    off L <= k + lo -> k + hi + off L < nc K -> vm_base E K k = fire E R_vm_init 0 true.
+  Proof.
+    intros K k Eo Ei Ea H1 H2. unfold vm_base, bit1_col, last_col. rewrite Eo, Ei, Ea.
+    unfold lo, hi in *.
+    destruct (dmax L <? 0) eqn:A.
+    - replace ((k + dmax L >=? 0 + off L) && (k + dmin L <? 0 + off L)) with false by lia.
+      replace (k + dmax L <? 0 + off L) with false by lia. reflexivity.
+    - destruct (dmin L >? 0) eqn:B.
+      + replace ((k + dmin L <=? nc K - 1 - off L) && (k + dmax L >? nc K - 1 - off L)) with false by lia.
+        replace (k + dmin L >? nc K - 1 - off L) with false by lia. reflexivity.
+      + replace ((k + dmin L <? 0 + off L) || (k + dmax L >? nc K - 1 - off L)) with false by lia.
+        reflexivity.
+  Qed.
+
+  Lemma bit1_col_interior : forall (K : layout) k, off K = off L -> dmin K = dmin L -> dmax K = dmax L ->
+    off L <= k + lo -> k + hi + off L < nc K -> bit1_col K k = false.
+  Proof.
+    intros K k Eo Ei Ea H1 H2. unfold bit1_col, last_col. rewrite Eo, Ei, Ea. unfold lo, hi in *.
+    destruct (dmax L <? 0) eqn:A; [lia|]. destruct (dmin L >? 0) eqn:B; [lia|reflexivity].
+  Qed.
+
+  (* the dilated no-data mask at (r + 0, c + d): the window of the pixel, both images inside *)
+  Lemma dil_local : forall (m m' : Z -> Z -> Z) ndv d,
+    off L <= c + d -> c + d + off L < nc L -> off L <= c' + d -> c' + d + off L < nc L' ->
+    (forall a b, - off L <= a <= off L -> - off L <= b <= off L -> m (r + a) (c + d + b) = m' (r' + a) (c' + d + b)) ->
+    dil L m ndv r (c + d) = dil L' m' ndv r' (c' + d).
+  Proof.
+    intros m m' ndv d H1 H2 H3 H4 Hm. destruct Hsame as (Eo & _). unfold dil. rewrite Eo.
+    replace (Z.max 0 (r - off L)) with (r - off L) by lia. replace (Z.min (nr L - 1) (r + off L)) with (r + off L) by lia.
+    replace (Z.max 0 (r' - off L)) with (r' - off L) by lia. replace (Z.min (nr L' - 1) (r' + off L)) with (r' + off L) by lia.
+    replace (Z.max 0 (c + d - off L)) with (c + d - off L) by lia.
+    replace (Z.min (nc L - 1) (c + d + off L)) with (c + d + off L) by lia.
+    replace (Z.max 0 (c' + d - off L)) with (c' + d - off L) by lia.
+    replace (Z.min (nc L' - 1) (c' + d + off L)) with (c' + d + off L) by lia.
+    unfold zrange.
+    replace (r' + off L - (r' - off L) + 1) with (r + off L - (r - off L) + 1) by lia.
+    replace (c' + d + off L - (c' + d - off L) + 1) with (c + d + off L - (c + d - off L) + 1) by lia.
+    apply existsb_zseq_shift. intros i Hi. apply existsb_zseq_shift. intros j Hj.
+    replace (r - off L + i) with (r + (i - off L)) by lia. replace (r' - off L + i) with (r' + (i - off L)) by lia.
+    replace (c + d - off L + j) with (c + d + (j - off L)) by lia.
+    replace (c' + d - off L + j) with (c' + d + (j - off L)) by lia.
+    rewrite Hm by lia. reflexivity.
+  Qed.
+
+  Lemma alloc_left_local : forall m, alloc_left E L m r c = alloc_left E L' m r' c'.
+  Proof.
+    intro m. destruct Hsame as (Eo & Ei & Ea & _ & _ & E1 & E2 & _). unfold alloc_left, lo, hi in *.
+    pose proof (dil_local (lm L) (lm L') (l_nd L) 0) as D. rewrite !Z.add_0_r in D.
+    rewrite E1, E2. rewrite D; try lia.
+    2:{ intros a b Ha Hb. apply Hlm; assumption. }
+    unfold isinv. pose proof (Hlm 0 0 ltac:(lia) ltac:(lia)) as H0. rewrite !Z.add_0_r in H0. rewrite H0. reflexivity.
+  Qed.
+
+  Lemma alloc_right_local : forall m, alloc_right E L m r c = alloc_right E L' m r' c'.
+  Proof.
+    intro m. destruct Hsame as (Eo & Ei & Ea & _ & _ & _ & _ & E3 & E4). unfold alloc_right. rewrite Ei, Ea.
+    f_equal. apply fold_left_ext_in. intros dsp st Hd.
+    unfold zrange in Hd. apply zseq_In in Hd.
+    assert (Hdsp : dmin L <= dsp <= dmax L) by lia. clear Hd.
+    unfold arm_step. destruct st as [[b27 ndr] mm].
+    unfold last_col, range_len. rewrite Eo, Ei, Ea, E3, E4.
+    unfold lo, hi in *.
+    rewrite (bit1_col_interior L c) by (unfold lo, hi; lia).
+    rewrite (bit1_col_interior L' c') by (unfold lo, hi; lia).
+    replace ((c + dsp >=? 0 + off L) && (c + dsp <=? nc L - 1 - off L)) with true by lia.
+    replace ((c' + dsp >=? 0 + off L) && (c' + dsp <=? nc L' - 1 - off L)) with true by lia.
+    rewrite (dil_local (rm L) (rm L') (r_nd L) dsp); try lia.
+    2:{ intros a b Ha Hb. replace (c + dsp + b) with (c + (dsp + b)) by lia.
+        replace (c' + dsp + b) with (c' + (dsp + b)) by lia. apply Hrm; lia. }
+    unfold isinv. pose proof (Hrm 0 dsp ltac:(lia) ltac:(lia)) as H0. rewrite !Z.add_0_r in H0. rewrite H0.
+    reflexivity.
+  Qed.
+
+  Lemma validity_mask_px_local : validity_mask_px E L r c = validity_mask_px E L' r' c'.
+  Proof.
+    destruct Hsame as (Eo & Ei & Ea & Elh & Erh & _). unfold validity_mask_px.
+    rewrite (vm_base_interior L c) by (try reflexivity; unfold lo, hi in *; lia).
+    rewrite (vm_base_interior L' c') by (try assumption; unfold lo, hi in *; lia).
+    rewrite Elh, Erh.
+    pose proof alloc_left_local as A. pose proof alloc_right_local as B.
+    destruct (lhas L); destruct (rhas L); rewrite ?A, ?B; reflexivity.
+  Qed.
+
+  Lemma mask_border_px_interior : forall (K : layout) k1 k2 m, off K = off L -> 0 < off L ->
+    off L <= k1 -> k1 + off L < nr K -> off L <= k2 -> k2 + off L < nc K ->
+    mask_border_px E K k1 k2 m = m.
+  Proof.
+    intros K k1 k2 m Eo Ho H1 H2 H3 H4. unfold mask_border_px, py_idx, in_sl. rewrite Eo. cbv zeta.
+    replace (off L <? 0) with false by lia. replace (- off L <? 0) with true by lia.
+    replace ((0 <=? k1) && (k1 <? Z.min (off L) (nr K))) with false by lia.
+    replace ((Z.max 0 (nr K + - off L) <=? k1) && (k1 <? nr K)) with false by lia.
+    replace ((0 <=? k2) && (k2 <? Z.min (off L) (nc K))) with false by lia.
+    replace ((Z.max 0 (nc K + - off L) <=? k2) && (k2 <? nc K)) with false by lia.
+    rewrite !andb_false_r. reflexivity.
+  Qed.
+
+  Theorem after_mc_local : after_mc E L an r c = after_mc E L' an' r' c'.
+  Proof.
+    destruct Hsame as (Eo & _). unfold after_mc. rewrite validity_mask_px_local, Han, Eo.
+    destruct (off L >? 0) eqn:Ho; [|reflexivity].
+    unfold lo, hi in *.
+    rewrite (mask_border_px_interior L r c) by (try reflexivity; lia).
+    rewrite (mask_border_px_interior L' r' c') by (try assumption; lia).
+    reflexivity.
+  Qed.
+End Crit.
+
+(* the right products are the left products of the mirrored problem (C08): exchange the roles *)
+Definition swap_pix (p : pix) : pix :=
+  mkPix (p_R p) (p_L p) (p_mR p) (p_mL p) (p_cvR p) (p_cvL p) (p_dR p) (p_dL p) (p_fR p) (p_fL p).
+Definition swapf (F : frame pix) : frame pix := mkFrame (f_nr F) (f_nc F) (fun r c => swap_pix (f_at F r c)).
+Definition swapc (G : cfg) : cfg :=
+  mkCfg (g_w G) (g_s G) (- g_dmax G) (- g_dmin G) (g_hasR G) (g_hasL G) (g_vp G) (g_nd G).
+
+Lemma dspan_swap : forall G, dspan (swapc G) = dspan G.
+Proof. intro G. unfold dspan, dpos, dneg, swapc. cbn [g_dmin g_dmax]. lia. Qed.
+Lemma rad_mc_swap : forall G, rad_mc (swapc G) = rad_mc G.
+Proof. intro G. unfold rad_mc. rewrite dspan_swap. reflexivity. Qed.
+Lemma n_disp_swap : forall G, n_disp (swapc G) = n_disp G.
+Proof. intro G. unfold n_disp, MatchingCost.nb_disp, swapc. cbn [g_s g_dmin g_dmax]. f_equal. ring. Qed.
+Lemma agree_swap : forall F F' R r c r' c', agree_on F F' R r c r' c' -> agree_on (swapf F) (swapf F') R r c r' c'.
+Proof. intros F F' R r c r' c' H a b Hab. unfold swapf. cbn [f_at]. now rewrite (H a b Hab). Qed.
+
+Lemma all_nan_curve : forall l l', l = l' -> all_nan l = all_nan l'.
+Proof. intros; subst; reflexivity. Qed.
+
+Section MCflags.
+  Variables (E : Criteria.env) (G : cfg).
+  Hypothesis Hwf : cfg_wf G.
+  Variables (F F' : frame pix) (r c r' c' : Z) (b b' : bool).
+  Hypothesis HF : cone_in F (rad_mc G) r c.
+  Hypothesis HF' : cone_in F' (rad_mc G) r' c'.
+  Hypothesis Hag : agree_on F F' (rad_mc G) r c r' c'.
+  Hypothesis Hb : b = b'.
+
+  Lemma left_flag_local :
+    Criteria.after_mc E (lay_left G F) (fun _ _ => b) r c = Criteria.after_mc E (lay_left G F') (fun _ _ => b') r' c'.
+  Proof.
+    pose proof (h0 G Hwf) as Hh.
+    assert (Hsp : - dspan G <= g_dmin G /\ g_dmax G <= dspan G /\ 0 <= dspan G) by (unfold dspan, dpos, dneg; lia).
+    unfold cone_in, rad_mc in HF, HF'. cbn [rho lam mu] in HF, HF'.
+    apply after_mc_local; unfold lay_left; cbn [Criteria.off Criteria.dmin Criteria.dmax Criteria.lhas Criteria.rhas
+      Criteria.l_nd Criteria.l_vl Criteria.r_nd Criteria.r_vl Criteria.nr Criteria.nc Criteria.lm Criteria.rm].
+    - repeat split; reflexivity.
+    - lia.
+    - destruct Hwf as (_ & _ & _ & Hdd). exact Hdd.
+    - lia.
+    - lia.
+    - intros a d Ha Hd. unfold fld. rewrite (Hag a d); [reflexivity|].
+      unfold in_cone, rad_mc. cbn [rho lam mu]. lia.
+    - intros a d Ha Hd. unfold fld. rewrite (Hag a d); [reflexivity|].
+      unfold in_cone, rad_mc. cbn [rho lam mu]. lia.
+    - exact Hb.
+  Qed.
+End MCflags.
+
+Theorem mc_step_local : forall ssd E G, cfg_wf G -> local no_side (mc_step ssd E G) (rad_mc G) (rad_mc G).
+Proof.
+  intros ssd E G Hwf F F' r c r' c' HF HF' Hag _.
+  pose proof (agree_centre _ F F' _ r c r' c' (rad_mc_wf G Hwf) Hag) as E0.
+  assert (Hwf' : cfg_wf (swapc G)).
+  { destruct Hwf as (A1 & A2 & A3 & A4). unfold cfg_wf, swapc. cbn [g_w g_s g_dmin g_dmax]. repeat split; try assumption. lia. }
+  assert (HFs : cone_in (swapf F) (rad_mc (swapc G)) r c) by (rewrite rad_mc_swap; exact HF).
+  assert (HFs' : cone_in (swapf F') (rad_mc (swapc G)) r' c') by (rewrite rad_mc_swap; exact HF').
+  assert (Hags : agree_on (swapf F) (swapf F') (rad_mc (swapc G)) r c r' c') by (rewrite rad_mc_swap; apply agree_swap; exact Hag).
+  pose proof (left_curve_local ssd G Hwf F F' r c r' c' HF HF' Hag) as CL.
+  pose proof (left_curve_local ssd (swapc G) Hwf' (swapf F) (swapf F') r c r' c' HFs HFs' Hags) as CR.
+  rewrite n_disp_swap in CR.
+  change (inp_left (swapc G) (swapf F)) with (inp_right G F) in CR.
+  change (inp_left (swapc G) (swapf F')) with (inp_right G F') in CR.
+  cbn [swapc g_dmin g_dmax] in CR.
+  unfold mc_step. cbv zeta. rewrite CL, CR, E0.
+  rewrite (left_flag_local E G Hwf F F' r c r' c' _ _ HF HF' Hag eq_refl).
+  change (lay_right G F) with (lay_left (swapc G) (swapf F)).
+  change (lay_right G F') with (lay_left (swapc G) (swapf F')).
+  rewrite (left_flag_local E (swapc G) Hwf' (swapf F) (swapf F') r c r' c' _ _ HFs HFs' Hags eq_refl).
+  reflexivity.
+Qed.
